@@ -301,6 +301,20 @@ Definition http_msg := (bytes * list (bytes * bytes) * bytes)%type.
 
 Inductive hres := HNeed | HFail (e : err) | HMsg (first : bytes) (hdrs : list (bytes * bytes)) (body rest : bytes).
 
+(* the same parser with every delivered message decorated *)
+Definition step_map {S M M'} (g : M -> M') (st : step N S M err) : step N S M' err :=
+  match st with
+  | Need => Need
+  | Fail e => Fail e
+  | Frame m s' rest => Frame (g m) s' rest
+  end.
+
+(* BasicHttpServer: what handler.handle_request(request) does, and what the server then writes *)
+Inductive hout := HResponse | HRaises | HNothing.   (* returns a response / raises / returns None *)
+Inductive answer := AHandler | A500 | A404.         (* the handler's response / 500 / 404 *)
+Definition answer_of (h : hout) : answer :=
+  match h with HResponse => AHandler | HRaises => A500 | HNothing => A404 end.
+
 Section Http.
   Variable utf8_ok : bytes -> bool.        (* header_str.decode("utf-8") succeeds *)
   Variable resp_first_ok : bytes -> bool.  (* the status-line regular expression of parse_response matches *)
@@ -388,16 +402,26 @@ Section Http.
   Definition ev_p1 := ev_gen false.
   Definition ev_p1_nn := ev_gen true.
 
+  (* The request handler is an input of the server step.  `request, rest = parse_request(data)`
+     has assigned `rest` before the handler is called, so whatever the handler does (returns a
+     response, raises -> 500, returns None -> 404) the bytes after the request stay buffered. *)
+  Variable handler : http_msg -> hout.
+
+  Definition httpdh_gen (strict : bool) (s : unit) (buf : bytes) : step N unit (http_msg * answer) err :=
+    step_map (fun m => (m, answer_of (handler m))) (httpd_gen strict s buf).
+  Definition httpdh_p1 := httpdh_gen false.
+  Definition httpdh_p1_nn := httpdh_gen true.
+
   (* The two loops exactly as written, including what they do where the drain shape says
      Fail (the connection stays open there).  Proofs relate them to Framing.run. *)
-  Inductive srv_out := SReq (m : http_msg) | SErr500 (e : err).
+  Inductive srv_out := SReq (m : http_msg) (a : answer) | SErr500 (e : err).
 
   (* _parse_and_send_next: (what was answered, returned rest) *)
   Definition httpd_next (buf : bytes) : option srv_out * bytes :=
     match parse_request buf with
     | RNeed | RSkip _ => (None, buf)                 (* if not request: return data *)
-    | RFail e => (Some (SErr500 e), [])              (* except: resp = 500; rest = b"" *)
-    | RFrame m rest => (Some (SReq m), rest)
+    | RFail e => (Some (SErr500 e), [])              (* except (parser): resp = 500; rest is still b"" *)
+    | RFrame m rest => (Some (SReq m (answer_of (handler m))), rest)   (* handler raised or not: rest *)
     end.
 
   Fixpoint httpd_loop (fuel : nat) (buf : bytes) : list srv_out * bytes :=
@@ -621,11 +645,14 @@ Definition httpc_check (c : httpc_case) : bool :=
     | _, _ => false
     end) (segs_of (hp_stream c) (hp_segs c)).
 
-(* BasicHttpServer, exact loop: requests handled (500 answers marked), residual buffer *)
-Inductive srv_obs := OReq (m : http_msg) | O500.
+(* BasicHttpServer, exact loop: requests handled with the status code written for each, lone 500
+   answers (parser failures), residual buffer *)
+Inductive srv_obs := OReq (m : http_msg) (code : N) | O500.
+Definition answer_code (a : answer) (code : N) : bool :=
+  match a with AHandler => code =? 200 | A500 => code =? 500 | A404 => code =? 404 end.
 Definition srv_obs_beq (a : srv_out) (b : srv_obs) : bool :=
   match a, b with
-  | SReq m, OReq m' => http_msg_beq m m'
+  | SReq m an, OReq m' code => http_msg_beq m m' && answer_code an code
   | SErr500 _, O500 => true
   | _, _ => false
   end.
@@ -636,22 +663,37 @@ Fixpoint list_beq2 {A B} (e : A -> B -> bool) (a : list A) (b : list B) : bool :
   | _, _ => false
   end.
 
-Record httpd_case := { hd_bad_first : list bytes; hd_stream : bytes; hd_segs : segspec;
+(* handler script: requests for which the handler does not simply return a response *)
+Definition handler_tab := list (http_msg * hout).
+Fixpoint handler_of (t : handler_tab) (m : http_msg) : hout :=
+  match t with
+  | [] => HResponse
+  | (m', h) :: t' => if http_msg_beq m m' then h else handler_of t' m
+  end.
+
+Record httpd_case := { hd_bad_first : list bytes; hd_handler : handler_tab; hd_stream : bytes; hd_segs : segspec;
                        hd_out : list srv_obs; hd_rest : bytes }.
 
 Definition httpd_check (c : httpd_case) : bool :=
   let ok := fun f => negb (memb (hd_bad_first c) f) in
   forallb (fun cuts =>
-    let '(os, r) := httpd_feeds ascii ok [] (cut_at 0 cuts (hd_stream c)) in
+    let '(os, r) := httpd_feeds ascii ok (handler_of (hd_handler c)) [] (cut_at 0 cuts (hd_stream c)) in
     list_beq2 srv_obs_beq os (hd_out c) && bytes_beq r (hd_rest c))
     (segs_of (hd_stream c) (hd_segs c)).
 
 (* the exact server loop and the Framing instance agree on this stream *)
+Definition srv_out_beq (a b : srv_out) : bool :=
+  match a, b with
+  | SReq m x, SReq m' y => http_msg_beq m m' && match x, y with AHandler, AHandler | A500, A500 | A404, A404 => true | _, _ => false end
+  | SErr500 e, SErr500 e' => err_eqb e e'
+  | _, _ => false
+  end.
 Definition httpd_agree (c : httpd_case) : bool :=
   let ok := fun f => negb (memb (hd_bad_first c) f) in
-  match run (httpd_p1 ascii ok) tt (hd_stream c), httpd_loop ascii ok (length (hd_stream c)) (hd_stream c) with
-  | Out ms _ r, (os, r') => list_beq2 srv_obs_beq os (map OReq ms) && bytes_beq r r'
-  | Failed ms e, (os, r') => list_beq2 srv_obs_beq os (map OReq ms ++ [O500]) && bytes_beq r' []
+  let h := handler_of (hd_handler c) in
+  match run (httpdh_p1 ascii ok h) tt (hd_stream c), httpd_loop ascii ok h (length (hd_stream c)) (hd_stream c) with
+  | Out ms _ r, (os, r') => list_beq srv_out_beq os (map (fun ma => SReq (fst ma) (snd ma)) ms) && bytes_beq r r'
+  | Failed ms e, (os, r') => list_beq srv_out_beq os (map (fun ma => SReq (fst ma) (snd ma)) ms ++ [SErr500 e]) && bytes_beq r' []
   | OutOfFuel, _ => false
   end.
 
